@@ -359,3 +359,112 @@ def ref_thermostat(r, idlen, State, Mode, Fan, Swing):
             "target_temperature": r[80],
             "remote_id": rid,
             "unparsed_response": r}
+
+
+# ------------------------------------------------------------------------------------- C05 / C06 broadcast layout
+@primitive
+def decode_padded_utf8(raw):
+    """the text whose UTF-8 encoding, zero padded, is raw (native: decode and strip the padding)"""
+    return raw.decode("utf-8").rstrip("\x00")
+
+
+def gate_spec(m):
+    """a Switcher broadcast begins with fe f0 and is exactly 165, 168 or 159 bytes long"""
+    return len(m) >= 2 and m[0] == 0xFE and m[1] == 0xF0 and (len(m) == 165 or len(m) == 168 or len(m) == 159)
+
+
+def dotted(b):
+    return str(b[0]) + "." + str(b[1]) + "." + str(b[2]) + "." + str(b[3])
+
+
+HEXUP = "0123456789ABCDEF"
+
+
+def hex2up(v):
+    return HEXUP[v // 16] + HEXUP[v % 16]
+
+
+def mac_text(b):
+    return hex2up(b[0]) + ":" + hex2up(b[1]) + ":" + hex2up(b[2]) + ":" + hex2up(b[3]) + ":" + hex2up(b[4]) + ":" + hex2up(b[5])
+
+
+def ref_name(m):
+    return decode_padded_utf8(m[42:74])
+
+
+def model_code(m):
+    return hexs(m[74:76])
+
+
+def ref_base(m, ip_off, dtype, state):
+    """fields every family reports.  ip_off: 76 for protocol type 1, 77 for type 2; the MAC follows the IP"""
+    return {"device_type": dtype, "device_state": state, "device_id": hexs(m[18:21]), "device_key": hexs(m[40:41]),
+            "ip_address": dotted(m[ip_off:ip_off + 4]), "mac_address": mac_text(m[ip_off + 4:ip_off + 10]), "name": ref_name(m)}
+
+
+def wf_type1(m, timed):
+    if not (len(m) == 165 and m[133] <= 1 and le32v(m[155:159]) < 86400):
+        return False
+    if timed and m[133] == 1 and not (le32v(m[147:151]) < 86400):
+        return False
+    return True
+
+
+def ref_power(m, dtype, State, timed):
+    """water heaters (timed) and power plugs: state m[133], watts LE16 m[135:137], remaining LE32 m[147:151],
+    auto shutdown LE32 m[155:159]; when the device reports OFF, power, current and remaining time are zero"""
+    on = m[133] == 1
+    d = ref_base(m, 76, dtype, State["ON"] if on else State["OFF"])
+    if on:
+        watts = le16v(m[135:137])
+        d["power_consumption"] = watts
+        d["electric_current"] = amps_of(watts)
+    else:
+        d["power_consumption"] = 0
+        d["electric_current"] = 0.0
+    if timed:
+        d["remaining_time"] = hhmmss(le32v(m[147:151])) if on else "00:00:00"
+        d["auto_shutdown"] = hhmmss(le32v(m[155:159]))
+    return d
+
+
+def wf_shutter_bc(m):
+    return len(m) == 159 and m[136] == 0 and ((m[137] == 0 and m[138] == 0) or (m[137] == 1 and m[138] == 0) or (m[137] == 0 and m[138] == 1))
+
+
+def ref_shutter_bc(m, dtype, State, Direction):
+    """runner: position m[135], direction m[137:139]; a shutter broadcast carries no power state (reported as ON)"""
+    d = ref_base(m, 77, dtype, State["ON"])
+    d["position"] = m[135]
+    if m[137] == 1:
+        d["direction"] = Direction["SHUTTER_UP"]
+    elif m[138] == 1:
+        d["direction"] = Direction["SHUTTER_DOWN"]
+    else:
+        d["direction"] = Direction["SHUTTER_STOP"]
+    return d
+
+
+def wf_breeze_bc(m):
+    if not (len(m) == 168 and m[137] <= 1 and 1 <= m[138] <= 5 and m[140] // 16 <= 3 and m[140] % 16 <= 1):
+        return False
+    for i in range(8):
+        if not (1 <= m[143 + i] < 128):
+            return False
+    return True
+
+
+def ref_breeze_bc(m, dtype, State, Mode, Fan, Swing):
+    """breeze: temperature LE16 m[135:137] in tenths, power m[137], mode m[138], target m[139], fan = high nibble of
+    m[140], swing = low nibble, remote id m[143:151] (8 ASCII characters)"""
+    d = ref_base(m, 77, dtype, State["ON"] if m[137] == 1 else State["OFF"])
+    rid = ""
+    for i in range(8):
+        rid = rid + chr(m[143 + i])
+    d["mode"] = Mode[MODE_BY_CODE[m[138]]]
+    d["temperature"] = tenths(le16v(m[135:137]))
+    d["target_temperature"] = m[139]
+    d["fan_level"] = Fan[FAN_BY_CODE[m[140] // 16]]
+    d["swing"] = Swing["ON"] if m[140] % 16 == 1 else Swing["OFF"]
+    d["remote_id"] = rid
+    return d
